@@ -18,7 +18,7 @@
          operations Add / Flush / DropNotFlushed / Restart (= vecfc.NewIndex + Reset over the same DB).
    Definitions only; proofs in proofs/VecPersistProofs.v. *)
 From Coq Require Import List Arith NArith ZArith Bool.
-From LV Require Import lib.Bytes model.Codec model.VecIndex model.Wlru.
+From LV Require Import lib.Bytes model.Codec model.VecIndex model.Wlru model.PosRlp.
 Import ListNotations.
 Open Scope N_scope.
 
@@ -201,6 +201,10 @@ Definition ce_drop (ce : ceng) : ceng :=
 Definition ce_restart (fccap : nat) (c0 c1 : bcache) (ce : ceng) : ceng :=
   {| ce_p := p_restart (ce_p ce); ce_dirty := false; ce_hbc := c0; ce_lac := c1; ce_fc := fcache_new fccap |}.
 
+(* BranchesInfo and validator count only (what forklessCause / GatherFrom need besides the vectors) *)
+Definition p_shape (p : pidx) : vidx :=
+  let b := p_binfo p in
+  {| nvals := p_n p; br_last := bi_last b; br_cr := bi_cr b; by_cr := bi_by b; hb := []; la := []; ebr := []; evs := [] |}.
 (* Index.ForklessCause: LRU; on a miss InitBranchesInfo, GetHighestBefore(a) and GetLowestAfter(b) through the
    caches, GetEventBranchID(b) from the table; nil vector = crit, answer false; the answer is remembered *)
 Definition ce_query (ws : list N) (q : N) (ce : ceng) (a b : N) : bool * ceng :=
@@ -211,14 +215,14 @@ Definition ce_query (ws : list N) (q : N) (ce : ceng) (a b : N) : bool * ceng :=
     let '(oa, hbt) := t_get a (ce_hb_t ce) in
     let '(ob, lat) := match oa with Some _ => t_get b (ce_la_t ce) | None => (None, ce_la_t ce) end in
     let r := match oa, ob, alookup b (pd_br (p_cur p1)) with
-             | Some ab, Some bb, Some brb => fc_on ws q (p_view p1) (dec_hb ab) (dec_la bb) (dec_br brb)
+             | Some ab, Some bb, Some brb => fc_on ws q (p_shape p1) (dec_hb ab) (dec_la bb) (dec_br brb)
              | _, _, _ => false end in
     (r, {| ce_p := p1; ce_dirty := ce_dirty ce; ce_hbc := t_c hbt; ce_lac := t_c lat; ce_fc := fcache_add (a, b) r (ce_fc ce) |}) end.
 (* GetMergedHighestBefore *)
 Definition ce_merged (ce : ceng) (a : N) : list hbs * ceng :=
   let p1 := p_initbi (ce_p ce) in
   let '(oa, hbt) := t_get a (ce_hb_t ce) in
-  (match oa with Some ab => merged_on (p_view p1) (dec_hb ab) | None => [] end,
+  (match oa with Some ab => merged_on (p_shape p1) (dec_hb ab) | None => [] end,
    {| ce_p := p1; ce_dirty := ce_dirty ce; ce_hbc := t_c hbt; ce_lac := ce_lac ce; ce_fc := ce_fc ce |}).
 
 (* ONE history type *)
@@ -232,3 +236,12 @@ Definition cstep (ws : list N) (q : N) (st : ceng * list cout) (o : cop) : ceng 
   | CFlush => (ce_flush ce, out)
   | CDrop => (ce_drop ce, out)
   | CRestart cap mw ms => (match Wlru.new mw ms with Some c0 => ce_restart cap c0 c0 ce | None => ce end, out) end.
+
+(* the bytes of the BranchesInfo record (key "c" of table "B"): rlp.EncodeToBytes of the struct
+   { BranchIDLastSeq []idx.Event; BranchIDCreatorIdxs []idx.Validator; BranchIDByCreators [][]idx.Validator }.
+   Encoder only (reuses the RLP primitives of model/PosRlp.v); tied to go-ethereum/rlp by the harness op DB;
+   the decoder is glue (the record is typed in pdb). *)
+Definition rlp_uints (l : list N) : list N := rlp_list (flat_map rlp_uint l).
+Definition enc_bi (b : binfo) : list N :=
+  rlp_list (rlp_uints (bi_last b) ++ rlp_uints (map N.of_nat (bi_cr b)) ++
+            rlp_list (flat_map (fun l => rlp_uints (map N.of_nat l)) (bi_by b))).
